@@ -23,7 +23,7 @@ MIN_NONTRIVIAL = {"quick": 200, "thorough": 4000}
 SHARDS = {"quick": 1, "thorough": 8}
 GENERATOR = {
     "pressure": "15..30000 psia (int32 p**2 overflows above 46340, outside any PVT range)",
-    "oil": "C12 box (T 80..350, API 12..55, gg 0.56..1.3, GOR 20..2500, p_b > 50)",
+    "oil": "C12 box (T 80..350, API 12..55, gg 0.56..1.3, GOR 20..2500, p_b > 50); in 35 % of the cases T, API and GOR are passed as Python ints",
     "water": "T 60..400 F, salinity 0..25 wt%",
     "gas (Fluid.gas_*)": "plausible pseudocritical points, p 15..12000",
 }
@@ -114,6 +114,9 @@ def generate(ck):
                 "salinity": wl.f(rng.choice([0.0, rng.uniform(0, 25)])),
                 "water_T": wl.f(rng.uniform(60, 400)),
                 "int_temperature": bool(rng.random() < 0.2),
+                # fluid parameters given as Python ints (Fluid(200, 35, 0.8, 650) is the documented
+                # way of calling): integer GOR / API must not leak into the result dtype
+                "int_params": bool(rng.random() < 0.35),
                 "Tpc": Tpc,
                 "ppc": ppc,
                 "pressures": [wl.f(v) for v in p],
@@ -154,6 +157,8 @@ def _callables(desc):
     T, api, gg, gor = desc["oil"]
     if desc["int_temperature"]:
         T = int(round(T))
+    if desc.get("int_params"):
+        T, api, gor = int(round(T)), int(round(api)), int(round(gor))
     fn = desc["fn"]
     sal, Tw = desc["salinity"], desc["water_T"]
     if desc["int_temperature"]:
@@ -215,7 +220,12 @@ def run_case(ck, desc):
             )
         worst = max(worst, err / max(abs(ref), 1e-300))
         ck.count("elements_compared")
-    pb = wl.bubblepoint(*desc["oil"])
+    o = list(desc["oil"])
+    if desc["int_temperature"] or desc.get("int_params"):
+        o[0] = float(round(o[0]))
+    if desc.get("int_params"):
+        o[1], o[3] = float(round(o[1])), float(round(o[3]))
+    pb = wl.bubblepoint(*o)
     p = view_before.astype(float)
     both_sides = bool(np.any(p < pb) and np.any(p >= pb))
     if desc["contains_pb"]:
